@@ -2,7 +2,8 @@
 //! first two — and, for each, every 37th block of the immutable chain plus the first and last block of every chunk as the requested
 //! point, exact and fuzzy (slot only), plus the origin and a point that is not on the chain): read_blocks_from_point returns exactly
 //! the suffix of read_blocks that starts at the requested block (for a fuzzy point: at the first block at or after the slot), and an
-//! error for a point that is not there. Exit 1 with the first failing (database, point) if not.
+//! error for a point that is not there. Third database: the eight Byron block fixtures, one chunk per epoch, each chunk opened by an epoch
+//! boundary block (the genesis boundary block re-issued for that epoch), indexes written the way the node lays them out. Exit 1 with the first failing (database, point) if not.
 //! Argument: a scratch directory (created and removed by the program).
 use std::path::{Path, PathBuf};
 use pallas_hardano::storage::immutable::{read_blocks, read_blocks_from_point, Point};
@@ -16,6 +17,53 @@ fn chain(dir: &Path) -> Vec<(u64, Vec<u8>)> {
     read_blocks(dir).expect("read_blocks").map(|b| { let b = b.expect("block"); let b = MultiEraBlock::decode(&b).expect("decode"); (b.slot(), b.hash().to_vec()) }).collect()
 }
 fn hex(b: &[u8]) -> String { b.iter().take(6).map(|x| format!("{x:02x}")).collect::<String>() + ".." }
+
+const CHUNK_SLOTS: u64 = 21600;
+struct Blk { bytes: Vec<u8>, slot: u64, hash: Vec<u8>, ebb_epoch: Option<u64> }
+fn unhex(t: &str) -> Vec<u8> { let t = t.trim().as_bytes(); (0..t.len() / 2).map(|i| u8::from_str_radix(std::str::from_utf8(&t[2 * i..2 * i + 2]).unwrap(), 16).expect("hex")).collect() }
+fn load(bytes: Vec<u8>) -> Blk {
+    let (slot, hash, ebb_epoch) = { let b = MultiEraBlock::decode(&bytes).expect("fixture block decodes");
+        let ebb = match &b { MultiEraBlock::EpochBoundary(x) => Some(x.header.consensus_data.epoch_id), _ => None }; (b.slot(), b.hash().to_vec(), ebb) };
+    Blk { bytes, slot, hash, ebb_epoch }
+}
+/// one chunk with its primary and secondary index the way the node lays them out: 56-byte secondary entries (block offset, header offset and
+/// size, checksum, header hash, then the slot for a regular block and the EPOCH for a boundary block), primary offsets per relative slot with
+/// relative slot 0 reserved for the boundary block
+fn write_chunk(dir: &Path, number: u64, blocks: &[&Blk]) {
+    let name = format!("{number:05}");
+    let (mut chunk, mut secondary) = (Vec::new(), Vec::new());
+    let mut filled = std::collections::BTreeSet::new();
+    for b in blocks {
+        filled.insert(match b.ebb_epoch { Some(_) => 0, None => b.slot - number * CHUNK_SLOTS + 1 });
+        secondary.extend_from_slice(&(chunk.len() as u64).to_be_bytes()); secondary.extend_from_slice(&[0u8; 8]);
+        secondary.extend_from_slice(&b.hash); secondary.extend_from_slice(&b.ebb_epoch.unwrap_or(b.slot).to_be_bytes());
+        chunk.extend_from_slice(&b.bytes);
+    }
+    let mut primary = vec![1u8]; let mut offset = 0u32; primary.extend_from_slice(&offset.to_be_bytes());
+    for rel in 0..=CHUNK_SLOTS { if filled.contains(&rel) { offset += 56; } primary.extend_from_slice(&offset.to_be_bytes()); }
+    std::fs::write(dir.join(&name).with_extension("chunk"), chunk).unwrap();
+    std::fs::write(dir.join(&name).with_extension("primary"), primary).unwrap();
+    std::fs::write(dir.join(&name).with_extension("secondary"), secondary).unwrap();
+}
+/// the mainnet genesis boundary block re-issued for another epoch: only the epoch field of its consensus data is rewritten
+fn ebb(genesis_hex: &str, epoch: u64) -> Option<Blk> {
+    let e = match epoch { 0..=23 => format!("{epoch:02x}"), 24..=255 => format!("18{epoch:02x}"), _ => format!("19{epoch:04x}") };
+    if genesis_hex.matches("8200810081a0").count() != 1 { return None; }
+    let b = load(unhex(&genesis_hex.replace("8200810081a0", &format!("82{e}810081a0"))));
+    if b.ebb_epoch == Some(epoch) && b.slot == epoch * CHUNK_SLOTS { Some(b) } else { None }
+}
+/// a Byron database: the eight Byron block fixtures, one chunk per epoch, every chunk opened by its boundary block
+fn byron_db(src: &Path, dir: &Path) -> Option<Vec<(u64, Vec<u8>)>> {
+    let genesis = std::fs::read_to_string(src.join("genesis.block")).ok()?;
+    let mut chunks: std::collections::BTreeMap<u64, Vec<Blk>> = Default::default();
+    for i in 1..=8 { let b = load(unhex(&std::fs::read_to_string(src.join(format!("byron{i}.block"))).ok()?)); let n = b.slot / CHUNK_SLOTS;
+        if !chunks.contains_key(&n) { chunks.insert(n, vec![ebb(genesis.trim(), n)?]); } chunks.get_mut(&n).unwrap().push(b); }
+    for blocks in chunks.values_mut() { blocks.sort_by_key(|b| (b.slot, b.ebb_epoch.is_none())); }
+    for (n, blocks) in &chunks { write_chunk(dir, *n, &blocks.iter().collect::<Vec<_>>()); }
+    // the newest chunk is not immutable yet and is never read
+    let newest = *chunks.keys().last()?;
+    Some(chunks.iter().filter(|(n, _)| **n != newest).flat_map(|(_, b)| b.iter().map(|b| (b.slot, b.hash.clone()))).collect())
+}
 
 fn main() {
     let scratch = PathBuf::from(std::env::args().nth(1).unwrap_or_else(|| "/verif/.build/scratch/c42".into()));
@@ -33,8 +81,13 @@ fn main() {
 
     let reference = chain(&plain);
     if reference.len() < 100 { eprintln!("the test database has only {} blocks", reference.len()); std::process::exit(2); }
+    let byron = scratch.join("byron"); std::fs::create_dir_all(&byron).unwrap();
+    let byron_chain = byron_db(src, &byron);
+    if byron_chain.is_none() { println!("note: the Byron database could not be built from the fixtures (genesis boundary block pattern not found) — skipped"); }
     let mut n = 0u64;
-    for (name, dir) in [("the three real chunks", &plain), ("the same chunks with an empty chunk in between", &gap)] {
+    let mut dbs = vec![("the three real chunks", &plain, reference.clone()), ("the same chunks with an empty chunk in between", &gap, reference.clone())];
+    if let Some(c) = byron_chain { dbs.push(("a Byron database whose chunks open with an epoch boundary block", &byron, c)); }
+    for (name, dir, reference) in dbs {
         let blocks = chain(dir);
         if blocks != reference { fail(format!("{name}: read_blocks yields {} blocks, the chain has {}", blocks.len(), reference.len())); }
         // chunk boundaries = places where the slot jumps by more than a chunk's worth; plus a regular sample
@@ -50,6 +103,8 @@ fn main() {
                     Ok(it) => it.map(|b| { let b = b.expect("block"); let b = MultiEraBlock::decode(&b).expect("decode"); (b.slot(), b.hash().to_vec()) }).collect(),
                     Err(e) => fail(format!("{name}: reading from block #{i} (slot {slot}, hash {}{}) fails with {e:?}; the block is on the chain", hex(hash), if fuzzy { ", slot-only point" } else { "" })),
                 };
+                // a slot-only point starts at the first block at or after the slot (a boundary block shares its slot with the block after it)
+                let i = if fuzzy { blocks.iter().position(|b| b.0 >= *slot).unwrap_or(i) } else { i };
                 if got[..] != blocks[i..] {
                     fail(format!("{name}: reading from block #{i} (slot {slot}, hash {}{}) returns {} blocks starting at slot {:?}; the suffix from that block has {} blocks",
                         hex(hash), if fuzzy { ", slot-only point" } else { "" }, got.len(), got.first().map(|x| x.0), blocks.len() - i));
